@@ -192,7 +192,7 @@ Proof.
   destruct ca as [e|].
   - destruct C as (Ho & Ha & Hp & Hi & Hs & Hd). subst ib.
     destruct m as [mo mp mq ma ms]. cbn [m_open m_ack m_pend m_pers m_sent] in *. subst mo ma mq.
-    destruct ev as [i h|i h|sn|sn ok| |past]; cbn [lstep lstep_wraps cache inb db] in *.
+    destruct ev as [i h|i h|sn|sn ok| | |past]; cbn [lstep lstep_wraps cache inb db] in *.
     + (* Active *)
       destruct (pending e) eqn:P; cbn [negb fix_active V fst snd mon_step m_open].
       * eexists; split; [reflexivity|]. unfold coupled, confirm; cbn. destruct d; fin.
@@ -220,6 +220,11 @@ Proof.
           cbn [fst snd mon_step m_open m_pend m_pers m_ack andb negb orb Bool.eqb]; rewrite GF;
           (eexists; split; [reflexivity|]); unfold coupled; rewrite ?EF; cbn;
           rewrite ?F2, ?F3, ?F4, ?P, ?orb_true_r, ?orb_false_r; cbn [negb]; try (destruct d; fin); fin.
+    + (* late Accounting-Response *)
+      cbn [fst snd mon_step m_open].
+      assert (EF : fs = true \/ fs = false) by (clear; destruct fs; auto).
+      destruct EF as [EF|EF]; rewrite EF in *; (eexists; split; [reflexivity|]);
+        unfold coupled, floor; rewrite ?EF; cbn; try rewrite (Hs eq_refl); destruct d; fin.
     + (* Restart *)
       cbn [fst snd mon_step m_open andb]. destruct d as [dd|]; cbn in Hd.
       * destruct Hd as (Hd1 & Hd2 & Hd3). subst mp. eexists; split; [reflexivity|].
@@ -229,7 +234,7 @@ Proof.
       destruct (pending e) eqn:P; destruct past; cbn [andb negb fst snd mon_step m_open m_pend];
         (eexists; split; [reflexivity|]); unfold coupled; cbn [cache db inb]; rewrite ?P; try (destruct d; fin); fin.
   - destruct C as (Hd & Hi & Hm). subst d ib m.
-    destruct ev as [i h|i h|sn|sn ok| |past]; cbn [lstep lstep_wraps cache inb db fst snd mon_step m_open mst0 fix_stop V andb];
+    destruct ev as [i h|i h|sn|sn ok| | |past]; cbn [lstep lstep_wraps cache inb db fst snd mon_step m_open mst0 fix_stop V andb];
       eexists; (split; [reflexivity|]); unfold coupled; cbn; repeat split; auto; discriminate.
 Qed.
 
@@ -280,7 +285,7 @@ Ltac mon_start t IH M NP Hi St :=
   cbn [map fst no_prune never_restored forallb] in NP;
   unfold outputs in *; cbn [flat_map snd];
   destruct m as [mo mp mq ma ms];
-  destruct ev as [i h|i h|sn|sn ok| |past]; cbn [mon_step m_open m_pers m_pend m_ack m_sent] in St;
+  destruct ev as [i h|i h|sn|sn ok| | |past]; cbn [mon_step m_open m_pers m_pend m_ack m_sent] in St;
   break_if St; inversion St; subst; clear St.
 
 Ltac no_prune_case :=
@@ -308,7 +313,7 @@ Proof.
   induction t as [|[ev o] r IH]; intros m m' x HM _ Hi; [reflexivity|].
   cbn [mon_run] in HM. destruct (mon_step _ m ev o) as [m1|] eqn:St; [|discriminate].
   cbn [stops_ok]. destruct m as [mo mp mq ma ms].
-  destruct ev as [i h|i h|sn|sn ok| |past]; cbn [mon_step m_open m_pers m_pend m_ack m_sent] in St;
+  destruct ev as [i h|i h|sn|sn ok| | |past]; cbn [mon_step m_open m_pers m_pend m_ack m_sent] in St;
   break_if St; inversion St; subst; clear St; cbn [filter length Nat.eqb Nat.leb andb];
   try (destruct x; [|specialize (Hi eq_refl); discriminate]); cbn [Nat.leb Nat.eqb andb];
   try (destruct x; cbn [Nat.leb Nat.eqb andb]);
@@ -323,9 +328,17 @@ Ltac norm_hyps := repeat match goal with
   | H : negb _ = true |- _ => apply negb_true_iff in H; subst
   end.
 
-(* acknowledged floor: open => prev is the acknowledged value (zero while nothing is persisted); closed => prev = 0 *)
+(* acknowledged floor: open => prev <= the acknowledged value (zero while nothing is persisted); closed => prev = 0 *)
 Definition mono_inv (m : mst) (prev : c4) : Prop :=
-  if m_open m then prev = m_ack m /\ (m_pers m = false -> m_ack m = c4z) else prev = c4z.
+  if m_open m then c4_le prev (m_ack m) /\ (m_pers m = false -> m_ack m = c4z) else prev = c4z.
+
+Lemma c4_le_z x : c4_le x c4z -> x = c4z.
+Proof. destruct x; unfold c4_le, c4z; cbn. intros (A & B & C & D). f_equal; lia. Qed.
+Lemma c4_leb_le_trans x a c : c4_le x a -> c4_leb a c = true -> c4_leb x c = true.
+Proof. intros H1 H2. apply c4_leb_spec in H2. apply c4_leb_spec. eapply c4_le_trans; eassumption. Qed.
+Lemma c4_max_ge_l a b : c4_le a (c4_max a b).
+Proof. unfold c4_le, c4_max, c4_map2; cbn [rxb txb rxp txp]; lia. Qed.
+Lemma c4_le_refl' a : c4_le a a. Proof. unfold c4_le; lia. Qed.
 
 Lemma mon_monotone fs t : forall m m' prev,
   mon_run fs m t = Some m' -> no_prune (map fst t) = true -> mono_inv m prev ->
@@ -335,11 +348,16 @@ Proof.
   unfold mono_inv in Hi; cbn [m_open m_ack m_pers] in Hi;
   cbn [app nondecreasing];
   try (match goal with H : ge_floor _ _ _ = true |- _ => pose proof (ge_floor_ack _ _ _ H) as GA; cbn [m_ack] in GA end);
-  try (destruct Hi as [Hi1 Hi2]; subst x); rewrite ?GA; cbn [andb];
+  try (match goal with |- c4_leb _ _ && _ = true =>
+         let Hi1 := fresh "Hi1" in let Hi2 := fresh "Hi2" in
+         pose proof Hi as [Hi1 Hi2]; rewrite (c4_leb_le_trans _ _ _ Hi1 GA); cbn [andb] end);
   (eapply IH; [exact HM|exact NP2|]); unfold mono_inv; cbn [m_open m_ack m_pers];
-  repeat match goal with b : bool |- _ => destruct b end; cbn; auto; try discriminate;
-  try (split; [reflexivity|intros; try discriminate; auto]);
-  try (destruct Hi as [Hi1 Hi2]; rewrite Hi1; auto).
+  repeat match goal with b : bool |- _ => destruct b end; cbn [orb andb] in *; try discriminate;
+  try (destruct Hi as [Hi1 Hi2]);
+  try reflexivity;
+  try (split; [first [exact Hi1 | apply c4_le_refl' | eapply c4_le_trans; [exact Hi1|apply c4_max_ge_l]]
+              | intros; try discriminate; auto]);
+  try (apply c4_le_z; rewrite <- (Hi2 eq_refl); exact Hi1); auto.
 Qed.
 
 (* sent floor (fix_sent): open => prev is the last value sent (zero while nothing is persisted); closed => 0 *)
@@ -374,7 +392,7 @@ Proof.
   apply andb_true_iff in NPa as [NP1 NPa]. apply andb_true_iff in NPb as [NR1 NPb].
   unfold outputs in *. cbn [flat_map snd]. destruct m as [mo mp mq ma ms].
   destruct Hi as [Hi1 Hi2]. cbn [m_open m_pers m_pend] in Hi1, Hi2. subst x.
-  destruct ev as [i h|i h|sn|sn ok| |past]; cbn [mon_step m_open m_pers m_pend m_ack m_sent] in St;
+  destruct ev as [i h|i h|sn|sn ok| | |past]; cbn [mon_step m_open m_pers m_pend m_ack m_sent] in St;
   try discriminate; break_if St; inversion St; subst; clear St; no_prune_case; norm_hyps;
   try (specialize (Hi2 eq_refl)); subst;
   cbn [app strict andb];
@@ -453,12 +471,13 @@ Qed.
 Lemma lstep_interims_acked v g s ev :
   match ev with ETick _ false => False | _ => True end -> interims_acked (snd (lstep v g s ev)) = true.
 Proof.
-  destruct ev as [i h|i h|sn|sn ok| |past]; intros H; cbn [lstep].
+  destruct ev as [i h|i h|sn|sn ok| | |past]; intros H; cbn [lstep].
   - destruct (inb s); [reflexivity|]. destruct (cache s); [destruct (fix_active v)|]; reflexivity.
   - destruct (cache s); reflexivity.
   - destruct (cache s); [reflexivity|]. destruct (fix_stop v); reflexivity.
   - destruct ok; [|contradiction]. destruct (inb s); [|reflexivity]. destruct (cache s) as [e|]; [|reflexivity].
     destruct (report v g true e sn). reflexivity.
+  - destruct (cache s); reflexivity.
   - reflexivity.
   - destruct (cache s) as [e|]; [|reflexivity]. destruct (pending e && past); reflexivity.
 Qed.
@@ -475,7 +494,7 @@ Proof.
   destruct (lstep v g s ev) as [s1 o]. specialize (IH s1 H2).
   destruct (lrun v g s1 r) as [s2 t]. unfold outputs in *. cbn [snd flat_map] in *.
   rewrite interims_acked_app, IH, andb_true_r. apply L.
-  destruct ev as [| | |sn ok| |]; auto. destruct ok; [auto|discriminate].
+  destruct ev as [| | |sn ok| | |]; auto. destruct ok; [auto|discriminate].
 Qed.
 
 Lemma monotone_sent_if_acked fs fo fl g evs :
@@ -811,7 +830,7 @@ Proof.
   assert (F : forall i h, sinv (c4_add B (ev_sum ev)) (fresh i h))
     by (intros i h; unfold sinv, fresh; cbn [base prior last]; split; [reflexivity|split; c4crush]).
   destruct s as [ib ca d]. cbn [cache db] in *.
-  destruct ev as [i h|i h|sn|sn ok| |past]; cbn [lstep lstep_wraps cache db inb ev_sum] in *.
+  destruct ev as [i h|i h|sn|sn ok| | |past]; cbn [lstep lstep_wraps cache db inb ev_sum] in *.
   - split; [destruct ca; reflexivity|].
     destruct ib; [split; cbn; auto|].
     destruct ca as [e|]; cbn [fix_active V fst]; split; cbn [cache db]; intros x Hx; inversion Hx; subst; auto.
@@ -832,6 +851,9 @@ Proof.
           destruct R2 as (Q1 & Q2 & Q3); unfold sinv; cbn [base prior last]; (split; [|split]); auto.
       * split; [reflexivity|]. cbn. split; auto.
     + split; [destruct ib; reflexivity|]. destruct ib; cbn; split; auto.
+  - split; [destruct ca; reflexivity|]. destruct ca as [e|]; [|cbn; split; auto].
+    cbn [fst floor fix_sent V]. specialize (Ic' e eq_refl).
+    split; cbn [cache db]; intros x Hx; inversion Hx; subst; unfold sinv in *; cbn; exact Ic'.
   - split; [destruct ca; reflexivity|]. cbn [fst]. split; cbn [cache db]; [|exact Id'].
     intros x Hx. destruct d as [dd|]; [|discriminate]. inversion Hx; subst.
     specialize (Id' dd eq_refl). unfold sinv in *; cbn. exact Id'.
